@@ -41,8 +41,19 @@ LEVEL_NOTE = "trusted: System.g_N, g_N_dot, gamma_F, M (C06, C14); reconstructio
 @st.composite
 def _case(draw):
     sc = draw(dynbuild.scene())
+    dt = 10.0 ** draw(gen.f(-2.7, -1.7))
+    if draw(st.integers(0, 7)) == 0:
+        # coupled contacts: ball A touches the plane while the applied force pulls it away (the contact would open in the
+        # free motion of the step), and ball B strikes A from above within the first step and presses it back
+        rA, rB, v = draw(gen.f(0.1, 0.3)), draw(gen.f(0.1, 0.3)), draw(gen.f(0.5, 3.0))
+        eN = draw(st.sampled_from([0.0, 0.5]))
+        mk = lambda r, z, vz, m: {"radius": r, "mass": m, "rigid": draw(st.booleans()), "r": [0.0, 0.0, z], "v": [0.0, 0.0, vz],
+                                  "inertia": None, "P": [1.0, 0.0, 0.0, 0.0], "omega": [0.0, 0.0, 0.0], "mu": 0.0, "e_N": eN}
+        sc = {"spheres": [mk(rA, rA, 0.0, draw(gen.f(0.5, 2.0))), mk(rB, 2 * rA + rB + 0.25 * v * dt, -v, draw(gen.f(0.5, 2.0)))],
+              "gravity": [0.0, 0.0, draw(gen.f(0.5, 9.81))], "force_free": False, "plane": True,
+              "pairs": [{"a": 0, "b": 1, "mu": 0.0, "e_N": eN}], "pinch": True}
     return {"scene": sc, "solver": draw(st.sampled_from(dynbuild.NONSMOOTH_SOLVERS)),
-            "dt": 10.0 ** draw(gen.f(-2.7, -1.7)), "nsteps": draw(st.integers(40, 120)),
+            "dt": dt, "nsteps": draw(st.integers(40, 120)),
             # DualStormerVerlet: accelerated fixed-point iteration (default) or the plain one
             "dsv_accelerated": draw(st.booleans())}
 
@@ -191,6 +202,8 @@ def check(spec):
         res.label("dsv:accelerated" if spec.get("dsv_accelerated", True) else "dsv:plain_fixed_point")
     if sc.get("plane_motion"):
         res.label("plane:moving:" + solver)
+    if sc.get("pinch"):
+        res.label("coupled_contacts_pinch:" + solver)
     if impacts:
         res.label("has_impact")
     if persistent:
